@@ -62,6 +62,33 @@ Definition hco_tr (ix : nat -> N) (ts : list tri) : bool :=
   let es := flat_map dedges ts in
   forallb (fun e => negb (Z.abs (eval ix es (fst (ekey ix e))) =? 2)%Z) es.
 
+(* the same check computed the way the code does it: one pass filing every edge in a map (rows indexed by the first
+   vertex of the key, each row an association list), then one pass reading the values.  hco_fast = hco_tr
+   (MeshCodecFast.hco_fast_eq); it is what [correct_local] runs, so that large meshes stay cheap once extracted. *)
+Fixpoint aget (r : list (nat * Z)) (b : nat) : Z :=
+  match r with [] => 0%Z | (b', v) :: t => if b' =? b then v else aget t b end.
+Fixpoint aadd (r : list (nat * Z)) (b : nat) (s : Z) : list (nat * Z) :=
+  match r with
+  | [] => [(b, s)]
+  | (b', v) :: t => if b' =? b then (b', (v + s)%Z) :: t else (b', v) :: aadd t b s
+  end.
+Definition mget (M : list (list (nat * Z))) (k : edge) : Z := aget (nth (fst k) M []) (snd k).
+Definition madd (M : list (list (nat * Z))) (k : edge) (s : Z) : list (list (nat * Z)) :=
+  upd M (fst k) (aadd (nth (fst k) M []) (snd k) s).
+Definition maxv (es : list edge) : nat := fold_right (fun e m => Nat.max (Nat.max (fst e) (snd e)) m) 0 es.
+Definition mbuild (ix : nat -> N) (es : list edge) (M0 : list (list (nat * Z))) : list (list (nat * Z)) :=
+  fold_left (fun M e => let (k, s) := ekey ix e in madd M k s) es M0.
+Definition hco_fast (ix : nat -> N) (ts : list tri) : bool :=
+  let es := flat_map dedges ts in
+  let M := mbuild ix es (repeat [] (S (maxv es))) in
+  forallb (fun e => negb (Z.abs (mget M (fst (ekey ix e))) =? 2)%Z) es.
+
+(* position table of vertices(): tab[g] = last position of g (VertexIndices / generate_indices in one pass) *)
+Fixpoint postab_from (l : list nat) (p : nat) (tab : list (option nat)) : list (option nat) :=
+  match l with [] => tab | h :: t => postab_from t (S p) (upd tab h (Some p)) end.
+Definition postab (l : list nat) : list (option nat) := postab_from l 0 (repeat None (S (list_max l))).
+Definition vpos_t (tab : list (option nat)) (g : nat) : option nat := nth g tab None.   (* = vpos l g for tab = postab l *)
+
 (* make_adjacencies: triangles containing vertex v, in triangle order, one entry per slot *)
 Fixpoint vtris_from (i : nat) (ts : list tri) (v : nat) : list nat :=
   match ts with
@@ -110,7 +137,7 @@ Fixpoint fill (fuel : nat) (stk vis : list nat) (ts : list tri) : list tri :=
   end.
 
 Definition correct_local (ix : nat -> N) (ts : list tri) : list tri :=
-  if hco_tr ix ts then ts else
+  if hco_fast ix ts then ts else
   match ts with [] => ts | _ => fill (length ts) [0] [0] ts end.
 
 Section Codec.
@@ -149,10 +176,11 @@ Record mesh := mkMesh {
 }.
 
 (* Vertex::index() after generate_indices; a vertex the mesh does not reference keeps unsigned(-1) *)
-Definition vindex (m : mesh) (g : nat) : N :=
-  match vpos (mv m) g with Some p => N.of_nat p | None => 4294967295%N end.
+Definition vindex_t (tab : list (option nat)) (g : nat) : N :=
+  match vpos_t tab g with Some p => N.of_nat p | None => 4294967295%N end.
+Definition vindex (m : mesh) : nat -> N := vindex_t (postab (mv m)).
 
-Definition has_correct_orientation (m : mesh) : bool := hco_tr (vindex m) (tr m).
+Definition has_correct_orientation (m : mesh) : bool := hco_fast (vindex m) (tr m).
 
 (* update(true): make_adjacencies; generate_indices; correct_local_orientation (normals/areas not modelled) *)
 Definition update (m : mesh) : mesh :=
@@ -161,7 +189,7 @@ Definition update (m : mesh) : mesh :=
 Definition coords (m : mesh) : list V3 := map (fun g => nth g (gv m) v0) (mv m).
 (* MeshIO::VertexIndices *)
 Definition loc (m : mesh) (g : nat) : option nat := vpos (mv m) g.
-Definition local_triangles (m : mesh) : option (list tri) := map_tris (loc m) (tr m).
+Definition local_triangles (m : mesh) : option (list tri) := map_tris (vpos_t (postab (mv m))) (tr m).   (* = map_tris (loc m) *)
 (* vertex_triangles.at(&V) in Mesh::normal *)
 Definition has_tri (m : mesh) (g : nat) : bool := existsb (fun t => existsb (Nat.eqb g) (tverts t)) (tr m).
 
@@ -463,6 +491,6 @@ End Codec.
 Arguments TNL {C}. Arguments TW {C} k. Arguments TNum {C} n. Arguments TC {C} c. Arguments TNrm {C}.
 Arguments BB {C} b. Arguments BF {C} c. Arguments BNF {C}.
 Arguments gv {C} m. Arguments mv {C} m. Arguments tr {C} m. Arguments mkMesh {C} gv mv tr.
-Arguments update {C} m. Arguments has_correct_orientation {C} m. Arguments vindex {C} m g.
+Arguments update {C} m. Arguments has_correct_orientation {C} m. Arguments vindex {C} m.
 Arguments loc {C} m g. Arguments local_triangles {C} m. Arguments has_tri {C} m g. Arguments normals_ok {C} m.
 Arguments nv {C} m. Arguments nt {C} m.
